@@ -3,6 +3,7 @@
 package server
 
 import (
+	"bytes"
 	"crypto/ecdsa"
 	"crypto/elliptic"
 	crand "crypto/rand"
@@ -73,8 +74,51 @@ func (r *e2eRig) startCDN(n int) {
 					c.Close()
 					return
 				}
-				go func() { io.Copy(up, tc); up.Close() }()
-				io.Copy(tc, up)
+				go func() {
+					if r.cdnEdge == "lower" {
+						// an edge that parses the request and sends it on with lower-case field names (as edges
+						// that carry requests over HTTP/2 internally do); field names are case-insensitive
+						var head []byte
+						b := make([]byte, 4096)
+						for !bytes.Contains(head, []byte("\r\n\r\n")) {
+							k, err := tc.Read(b)
+							head = append(head, b[:k]...)
+							if err != nil {
+								break
+							}
+						}
+						if i := bytes.Index(head, []byte("\r\n\r\n")); i >= 0 {
+							lines := strings.Split(string(head[:i]), "\r\n")
+							for li := 1; li < len(lines); li++ {
+								if j := strings.Index(lines[li], ":"); j > 0 {
+									lines[li] = strings.ToLower(lines[li][:j]) + lines[li][j:]
+								}
+							}
+							head = append([]byte(strings.Join(lines, "\r\n")), head[i:]...)
+						}
+						up.Write(head)
+					}
+					io.Copy(up, tc)
+					up.Close()
+				}()
+				if r.cdnEdge == "pieces" {
+					// an edge that re-frames what the origin sends: every chunk goes on in two records
+					b := make([]byte, 32768)
+					for {
+						k, err := up.Read(b)
+						if k > 48 {
+							tc.Write(b[:48])
+							tc.Write(b[48:k])
+						} else if k > 0 {
+							tc.Write(b[:k])
+						}
+						if err != nil {
+							break
+						}
+					}
+				} else {
+					io.Copy(tc, up)
+				}
 				tc.Close()
 			}()
 		}
@@ -93,6 +137,7 @@ type hsCase struct {
 	// UseAbsClock: the client's clock reads exactly AbsClock (Unix seconds) instead of now+Offset
 	UIDClass    string `json:"uid_class,omitempty"` // "", zeros, ones, trailing-zeros, leading-zeros
 	UseAbsClock bool   `json:"use_abs_clock,omitempty"`
+	CDNEdge     string `json:"cdn_edge,omitempty"` // "", pieces (replies re-framed), lower (request field names in lower case)
 	AbsClock    int64  `json:"abs_clock,omitempty"`
 }
 
@@ -174,6 +219,7 @@ func hsAgree(cs hsCase) string {
 	_ = decoy
 	r.serve(1)
 	if cs.Transport == "cdn" {
+		r.cdnEdge = cs.CDNEdge
 		r.startCDN(1)
 	}
 	proxyGot := make([]byte, 0, 8)
